@@ -302,6 +302,56 @@ def _ucs_guards_itself(m, K):
     return True
 
 
+def _no_time_has_passed(p, K, m=None):
+    """A condition of the path says  time == kernel.now (as loaded before this pass stored the new time)  over all 32 bits:
+    `(time - now) == 0` or `time == now`, not a narrowed difference."""
+    nowp = K.kptr("now")
+    for c, taken, inst in p.conds:
+        cc = c
+        # strip only value-preserving wrappers of the whole comparison (not of its operands)
+        while cc[0] == "cast" and cc[1] in ("zext", "sext"):
+            cc = cc[4]
+        if cc[0] != "icmp" or cc[1] not in ("eq", "ne") or (cc[1] == "eq") != bool(taken):
+            continue
+        a, b = cc[2], cc[3]
+        if b[0] == "c" and b[2] == 0 and a[0] == "ld" and a[2] == 4 and K.member_of(a[1]) and K.member_of(a[1])[1] == 0 \
+                and K.member_of(a[1])[0] not in ("now", "state", "current") and m is not None:
+            # a 32-bit kernel member tested against 0: what this path stored to it, if nothing else in the unit writes it
+            mem = a[1]
+            st = [e for e in p.events if e.kind == "store" and e.ptr == mem]
+            if len(st) == 1 and st[0].size == 4 and _only_writer(m, K, mem, st[0].inst):
+                a = st[0].val
+        if b[0] == "c" and b[2] == 0 and a[0] == "b" and a[1] == "sub" and a[2] == 32:
+            a, b = a[3], a[4]
+        if {a[0], b[0]} == {"arg", "ld"}:
+            ld = a if a[0] == "ld" else b
+            if ld[1] == nowp and ld[2] == 4:
+                return True
+    return False
+
+
+def _only_writer(m, K, mem, inst):
+    from .. import flow
+    off = ptr_parts(mem)[1]
+    for fn in m.defined_functions():
+        for i in fn.insts():
+            if i is inst:
+                continue
+            if i.op == "store":
+                ptr, size = i.ops[1], i["size"]
+            elif i.op == "call" and isinstance(i.callee, str) and i.callee.startswith(("llvm.mem",)):
+                ptr, size = i.args[0], None
+            else:
+                continue
+            try:
+                pp = flow.resolve_ptr(ptr, m)
+            except AnalysisError:
+                continue
+            if pp.root.k == "global" and pp.root.name == "kernel" and (pp.var or size is None or (pp.off < off + 4 and off < pp.off + size)):
+                return False
+    return True
+
+
 def check_s4_s6(chk, m, K):
     fn, ps = fib.fn_paths(m, "fibre_scheduler_next")
     chk.note_fn(fn)
@@ -328,6 +378,14 @@ def check_s4_s6(chk, m, K):
                 want.append("update_current_state")
             want += ["handle_timerq", "get_next_task"]
             core = [x for x in key if x != "<indirect>"]
+            if core == [x for x in want if x != "handle_timerq"] and _no_time_has_passed(p, K, m):
+                # the expiry step may be skipped on a pass whose time argument equals (all 32 bits) the time of the previous pass:
+                # every fibre the previous pass left on the timer queue is due strictly after that time (the expiry predicate takes
+                # all that are not, fibre_timeout queues nothing that is not: C02 T3), so the step would find nothing
+                chk.ob("S4.pass-order", pid, True, "drain -> %spop, with the expiry step skipped only where time == the previous pass's "
+                       "kernel.now (full width): nothing can have become due" % ("re-queue/reset previous fibre -> " if cur else ""),
+                       p.ret_inst.loc, fn.name)
+                continue
             chk.ob("S4.pass-order", pid, core == want,
                    "slow path order must be drain -> %sexpire timers -> pop; observed %s" %
                    ("re-queue/reset previous fibre -> " if cur else "", core), p.ret_inst.loc, fn.name)
